@@ -5,9 +5,8 @@ import os
 
 VERIF = os.path.dirname(os.path.dirname(os.path.abspath(__file__)))
 
-BASELINE_OFF = ("cd /repo/v3 && export GOFLAGS=-mod=mod GOPROXY=off GOSUMDB=off && go build ./... && "
-                "go test -vet=off -count=1 -timeout 25m ./... && (cd cmd/genTestCerts && go test -vet=off -count=1 ./...) && "
-                "(cd cmd/gen_test_crl && go test -vet=off -count=1 ./...)")
+BASELINE_OFF = ("export GOTOOLCHAIN=local GOPROXY=off GOSUMDB=off; for m in $(cat /w/out/gomods.txt); do "
+                "(cd /repo/$m && go test -mod=mod -json -vet=off -count=1 -timeout 25m ./...); done")
 
 NOTE_COMMON = ("Trusted: Coq 8.16.1 kernel + vm_compute; no axioms (Print Assumptions captured per run); hand models tied to /repo by the "
                "Go correspondence harness (rebuilt from the working tree with -tags verif -overlay /verif/hooks); oracles (parsers, regexp, "
